@@ -17,7 +17,7 @@ Not decided: the exact line sequence for a given chart (runtime).
 import ast
 
 from sa.model import AnalysisError, walk_shallow, dotted, norm
-from sa.util import expand_locals, partial_format, cfg_of, shallow_calls, guarded_by_edge, const_str, status_const, strip_not
+from sa.util import local_defs, expand_locals, partial_format, cfg_of, shallow_calls, guarded_by_edge, const_str, status_const, strip_not
 from sa.context import callgraph
 from sa import queues, wrap
 
@@ -208,7 +208,14 @@ def check(run, model, tier):
         inn = cg.factories[fac[0]]
         apps = [c for c in shallow_calls(inn.node) if isinstance(c.func, ast.Attribute) and c.func.attr == 'append' and ring_of(c.func.value) in ('rtc.spy', 'full.spy')]
         rings = sorted(ring_of(c.func.value) for c in apps)
-        ok = rings == ['full.spy', 'rtc.spy'] and all(c.args and norm(c.args[0]).endswith('.queue_reflection()') for c in apps)
+        ldefs_ = local_defs(inn.node)
+
+        def reflection_arg(a):
+            if isinstance(a, ast.Name):
+                ds = [d for d in ldefs_.get(a.id, []) if isinstance(d, ast.AST)]
+                return len(ds) == 1 and len(ldefs_.get(a.id, [])) == 1 and norm(ds[0]).endswith('.queue_reflection()')
+            return norm(a).endswith('.queue_reflection()')
+        ok = rings == ['full.spy', 'rtc.spy'] and all(c.args and reflection_arg(c.args[0]) for c in apps)
         run.inst('SPY.markers', inn, 'queue reflection goes to step log and full log together', ok, 'reflection written to %s' % rings, obligation=True)
     # ---- accumulate
     n_ext = 0
